@@ -27,6 +27,9 @@ INPLACE = {"sort", "fill", "put", "partition", "resize", "itemset", "reverse", "
 
 def check(ctx):
     repo = ctx.repo
+    from . import generic
+    generic.inplace_options(ctx, generic.module_functions(repo, "dataiter.aggregate"),
+                            "the same values whatever aggregations were run before it, in the same call")
     for r, t in (("SIB-8", "python/numba twin agreement and dispatch order"),
                  ("PURE-kernel", "kernels never write or reorder the group slices in place"),
                  ("SIB-9", "for every element kind use_numba() admits (scalar hierarchy / dtype.kind), the Numba NA test equals Vector.is_na's"),
